@@ -162,6 +162,9 @@ type Tracer struct {
 	Lift int
 	// LiftFilter, when set, restricts the lifting to call sites in functions it accepts (e.g. those on the message trees).
 	LiftFilter func(caller *ssa.Function) bool
+	// NoIndex: the index operand of an element selection is not part of the value's slice (which element is read is
+	// control, not data).
+	NoIndex bool
 	// Stop lists callees (by name suffix) whose result is a leaf and whose arguments are not traced further.
 	Stop []string
 }
@@ -487,10 +490,14 @@ func (st *tstate) trace(v ssa.Value, path []string, c *tctx) {
 		st.trace(x.X, append([]string{fieldElem(x.X.Type(), x.Field)}, path...), c)
 	case *ssa.Index:
 		st.trace(x.X, append([]string{"[*]"}, path...), c)
-		st.trace(x.Index, nil, c)
+		if !st.t.NoIndex {
+			st.trace(x.Index, nil, c)
+		}
 	case *ssa.Lookup:
 		st.trace(x.X, append([]string{"[*]"}, path...), c)
-		st.trace(x.Index, nil, c)
+		if !st.t.NoIndex {
+			st.trace(x.Index, nil, c)
+		}
 	case *ssa.Slice:
 		st.trace(x.X, path, c)
 	case *ssa.MakeSlice, *ssa.MakeMap, *ssa.MakeChan:
@@ -558,7 +565,9 @@ func (st *tstate) traceLoad(addr ssa.Value, path []string, c *tctx) {
 			st.sameBaseFieldStores(a, path, c)
 		}
 	case *ssa.IndexAddr:
-		st.trace(a.Index, nil, c)
+		if !st.t.NoIndex {
+			st.trace(a.Index, nil, c)
+		}
 		if _, ok := a.X.Type().Underlying().(*types.Pointer); ok {
 			st.traceLoad(a.X, append([]string{"[*]"}, path...), c)
 		} else {
